@@ -234,7 +234,16 @@ pub fn run(ctx: &mut Ctx) {
             engine.condition.set_speed(*rng.pick(&[0.05, 0.08, 0.099, 20.0, 50.0]));
             engine.condition.set_phoneme_alignment_flag(false);
         }
-        let labels = if extreme_speed { env.corpus.random_utterance(rng, 1, 2) } else { env.corpus.random_utterance(rng, 1, if q { 6 } else { 30 }) };
+        // one case in sixteen: a long utterance stepped for hundreds of frames before the finish
+        let long_run = idx % 16 == 9 && !extreme_speed;
+        let labels = if extreme_speed {
+            env.corpus.random_utterance(rng, 1, 2)
+        } else if long_run {
+            let nl = rng.range(14, 24);
+            env.corpus.utterance(rng, nl, 0)
+        } else {
+            env.corpus.random_utterance(rng, 1, if q { 6 } else { 30 })
+        };
         let w = match guard(|| engine.synthesize(labels.clone())) {
             Ok(Ok(w)) => w,
             Ok(Err(e)) => {
@@ -249,11 +258,15 @@ pub fn run(ctx: &mut Ctx) {
         let fp = engine.condition.get_fperiod();
         let f = w.len() / fp;
         for _ in 0..3 {
-            let cut = match rng.below(4) {
-                0 => 0,
-                1 => f,
-                2 => f + 2,
-                _ => rng.below(f + 1),
+            let cut = if long_run && f > 300 {
+                *rng.pick(&[257usize, 300, f - 1, f, f + 1])
+            } else {
+                match rng.below(4) {
+                    0 => 0,
+                    1 => f,
+                    2 => f + 2,
+                    _ => rng.below(f + 1),
+                }
             };
             let mut ops = Vec::new();
             for _ in 0..cut {
